@@ -166,7 +166,7 @@ func (w *Walker) loopOne(s ast.Stmt, rng *ast.RangeStmt, fr *ast.ForStmt, body *
 	}
 	w.loops = append(w.loops, &loopCtx{})
 	// counter discovery hooks
-	w.cnt = append(w.cnt, &cntCtx{table: table, loopID: loopID, entry: entryFacts, sites: map[*types.Var][]cntSite{}, assigned: assigned})
+	w.cnt = append(w.cnt, &cntCtx{table: table, loopID: loopID, entry: entryFacts, sites: map[*types.Var][]cntSite{}, assigned: assigned, trailLen: len(b.TrailL)})
 	outs := w.stmts(body.List, bodyIn)
 	cc := w.cnt[len(w.cnt)-1]
 	w.cnt = w.cnt[:len(w.cnt)-1]
@@ -212,6 +212,7 @@ type cntCtx struct {
 	entry    map[string]bool
 	sites    map[*types.Var][]cntSite
 	assigned map[*types.Var][]ast.Node
+	trailLen int
 }
 
 func (w *Walker) bindLoopVars(rng *ast.RangeStmt, table *Term, st *State, loopID string) {
@@ -250,41 +251,26 @@ func (w *Walker) noteCounter(v *types.Var, kind string, st *State) {
 	if _, ok := cc.assigned[v]; !ok {
 		return
 	}
-	// phi = facts added since loop body entry that mention the loop element
+	// phi = branch conditions taken since loop body entry; each must be about the loop element
 	var lits []string
 	var plits []Lit
 	elemPrefix := ""
 	if cc.table != nil {
 		elemPrefix = "elem(" + cc.table.S + ")#" + cc.loopID
 	}
-	eqs := map[string]bool{}
-	for k, val := range st.F.m {
-		at := st.F.atoms[k]
-		if val && at.Op == "eq" {
-			eqs[at.A.S+"|"+at.B.S] = true
-			eqs[at.B.S+"|"+at.A.S] = true
-		}
+	start := cc.trailLen
+	if start > len(st.TrailL) {
+		start = len(st.TrailL)
 	}
-	for k, val := range st.F.m {
-		key := k
-		if !val {
-			key = "!" + k
+	for _, l := range st.TrailL[start:] {
+		key := l.A.S
+		if !l.Pos {
+			key = "!" + key
 		}
-		if cc.entry[key] {
-			continue
-		}
-		at := st.F.atoms[k]
-		// drop literals derived from an equality (a==b ⇒ !(a<b), !(b<a))
-		if at.Op == "lt" && !val && eqs[at.A.S+"|"+at.B.S] {
-			continue
-		}
-		if elemPrefix != "" && strings.Contains(k, elemPrefix) {
+		if elemPrefix != "" && strings.Contains(key, elemPrefix) {
 			lits = append(lits, strings.ReplaceAll(key, elemPrefix, "e"))
-			plits = append(plits, Lit{at, val})
-		} else if len(at.Reads) == 0 && !hasParamTerm(at.A) && !hasParamTerm(at.B) && !hasLocalTerm(at.A) && !hasLocalTerm(at.B) {
-			continue // a fact about constants only (derived)
-		} else if elemPrefix != "" {
-			// a condition not about the element: cannot express; mark as impure
+			plits = append(plits, l)
+		} else {
 			lits = append(lits, "?"+key)
 		}
 	}
@@ -444,6 +430,10 @@ func (w *Walker) evalCall(call *ast.CallExpr, st *State, nres int) []callRes {
 			res = manyFresh(nres)
 		}
 		w.siteExt(call, id, s, recvs[i], args[i])
+		if w.record && recvs[i] != nil && recvs[i].K == KIndex && recvs[i].Args[0].K == KField && strings.HasPrefix(id, "if:") {
+			site := w.A.siteFor(w.Fn, call, "deref", id, recvs[i].Args[0].Name)
+			w.A.snap(site, s, recvs[i], args[i], nil, recvs[i].Args[1])
+		}
 		w.extEffects(id, call, recvs[i], args[i], s)
 		out = append(out, callRes{s, res})
 	}
